@@ -303,6 +303,7 @@ func propC13(c *Ctx) {
 	c.Rule("C13.R3", func() {
 		fn := childHandler(c, "AddValidator")
 		o := c.Ob("C13.R3", "AddValidator: insertion only with operator absent, consensus key absent and len(all) < MaxValidators")
+		okt := c.Ob("C13.R12", "AddValidator: insertion only with a consensus key type the engine's consensus params allow")
 		po := PO{Params: hParams, Visits: 3, NoInline: []string{".Validate", "Keeper).SetValidator", "SetValidatorByConsAddr", "GetAllValidators", "Keeper).MaxValidators", "Keeper).GetValidator", "GetValidatorByConsAddr", "types.NewValidator"}}
 		for _, p := range c.Paths(fn, po) {
 			o.Paths++
@@ -350,6 +351,28 @@ func propC13(c *Ctx) {
 				}
 				if !opAbsent || !keyAbsent || !capOK {
 					o.Fail(where, fmt.Sprintf("validator inserted without: operator absent [%v], consensus key absent [%v], len(all) < MaxValidators [%v]", opAbsent, keyAbsent, capOK), c.Dump(p, i))
+				}
+				// the engine accepts only the key types its consensus params list: when they are
+				// restricted (Validator != nil) the inserted key's type equals a listed one
+				okt.Sites++
+				isVP := func(t *Term) bool {
+					k := strip(t).Key()
+					return strings.Contains(k, "ConsensusParams(") && strings.HasSuffix(k, ".Validator")
+				}
+				restricted := p.HasFact(i, func(a *Term, pol bool) bool { x := eqOtherT(a, isVP); return x != nil && x.IsNil() && !pol })
+				unrestricted := p.HasFact(i, func(a *Term, pol bool) bool { x := eqOtherT(a, isVP); return x != nil && x.IsNil() && pol })
+				typeOK := p.HasFact(i, func(a *Term, pol bool) bool {
+					if !pol || a.Op != "bin" || a.Name != "==" {
+						return false
+					}
+					x, y := strip(a.Args[0]).Key(), strip(a.Args[1]).Key()
+					if strings.Contains(y, "PubKey).Type(") {
+						x, y = y, x
+					}
+					return strings.Contains(x, "PubKey).Type(") && strings.Contains(x, pk.Key()) && strings.Contains(y, ".Validator.PubKeyTypes[")
+				})
+				if !unrestricted && !(restricted && typeOK) {
+					okt.Fail(where, fmt.Sprintf("validator inserted without its key type being one of ConsensusParams.Validator.PubKeyTypes (params restricted [%v], type listed [%v]): the engine rejects the batch", restricted, typeOK), c.Dump(p, i))
 				}
 			}
 		}
@@ -1189,4 +1212,18 @@ func indexPaired(c *Ctx, rule string, only ...string) {
 				o.Fail(c.W.Pos(fn.Pos()), "no SetValidator call on a success path", nil)
 			}
 		}
+}
+
+// eqOtherT: atom is (x == y) with pred(x) or pred(y): the other operand.
+func eqOtherT(atom *Term, pred func(*Term) bool) *Term {
+	if atom.Op != "bin" || atom.Name != "==" || len(atom.Args) != 2 {
+		return nil
+	}
+	if pred(atom.Args[0]) {
+		return atom.Args[1]
+	}
+	if pred(atom.Args[1]) {
+		return atom.Args[0]
+	}
+	return nil
 }
